@@ -568,6 +568,11 @@ def guards(fn, defs=None):
                 if rv[0] == 'use' and rv[1][0] in ('c', 'm') and not g.lock_fields:
                     fs, root = origin_fields(fn, rv[1][1][0], defs)
                     g.lock_fields, g.root = place_fields(rv[1][1]) + fs, root
+        if not any('.' in x for x in g.lock_fields) and g.root is not None:
+            # the lock came out of an accessor (`self.stripe_for(key).write()`): name it after the accessor
+            d = single_def(defs, g.root)
+            if d and d[2] == 'call' and re.search(r'(Mutex|RwLock)<', fn.locals[g.root]):
+                g.lock_fields = [d[3].resolved + '.<returned lock>']
         g.kills = []
         for i, b in enumerate(fn.bbs):
             if b['cleanup']:
